@@ -29,8 +29,14 @@ var rootShapes = []string{"dup-ID", "dup-Destination", "dup-Version", "dup-InRes
 	"issuer-twice", "issuer-twice-first-evil", "issuer-comment", "issuer-cdata", "issuer-child", "issuer-child-middle", "issuer-pi-middle", "issuer-pi-leading", "issuer-other-ns-first", "issuer-nested-deeper", "shadow-prefix", "status-before-issuer", "empty-attrs", "enc-issuer-after", "enc-issuer-first", "enc-status-after", "enc-root-attrs"}
 
 var prologs = []string{"", "", `<?xml version="1.0" encoding="UTF-8"?>`, `<?xml version="1.0" encoding="utf-8"?>`, `<?xml version="1.0" encoding="US-ASCII"?>`, `<?xml version="1.0" encoding="ISO-8859-1"?>`,
-	`<?xml version="1.0" encoding="UTF-16"?>`, "\xEF\xBB\xBF", "\xEF\xBB\xBF" + `<?xml version="1.0"?>`, `<!DOCTYPE x [<!ENTITY e "v">]>`, "<!-- c -->\n", `<?pi x?>`, "\n \t"}
-var epilogs = []string{"", "", "\n", "<!-- trailing -->", "<?pi y?>", " \n<!--a--><!--b-->"}
+	`<?xml version="1.0" encoding="UTF-16"?>`, "\xEF\xBB\xBF", "\xEF\xBB\xBF" + `<?xml version="1.0"?>`, `<!DOCTYPE x [<!ENTITY e "v">]>`, "<!-- c -->\n", `<?pi x?>`, "\n \t", evilSecondRoot("Response"), evilSecondRoot("LogoutResponse")}
+var epilogs = []string{"", "", "\n", "<!-- trailing -->", "<?pi y?>", " \n<!--a--><!--b-->", evilSecondRoot("Response"), "\n" + evilSecondRoot("LogoutResponse"), evilSecondRoot("Response") + evilSecondRoot("LogoutResponse")}
+
+// evilSecondRoot: a SECOND top-level element after the genuine one (the parsers in use tolerate it): whichever
+// element the decoders pick, the pre-decode and validation must pick the same.
+func evilSecondRoot(tag string) string {
+	return `<samlp:` + tag + ` xmlns:samlp="urn:oasis:names:tc:SAML:2.0:protocol" xmlns:saml="urn:oasis:names:tc:SAML:2.0:assertion" ID="_evil_second_root" InResponseTo="_evil_req" Version="2.0" IssueInstant="2030-03-01T12:00:00Z" Destination="https://evil.example/acs"><saml:Issuer>https://evil-idp.example.net</saml:Issuer><samlp:Status><samlp:StatusCode Value="urn:oasis:names:tc:SAML:2.0:status:Success"/></samlp:Status></samlp:` + tag + `>`
+}
 
 func applyRootShape(root *etree.Element, shape string, evil string) {
 	pre := func(k, v string) {
@@ -442,6 +448,18 @@ func TestC20_Grid(t *testing.T) {
 					xml := append([]byte(pro), h.Serialize(root, h.Layout{})...)
 					c.Encoded = base64.StdEncoding.EncodeToString(xml)
 					cases = append(cases, c)
+					if shape == "" && pro == "" {
+						for _, epi := range epilogs[6:] {
+							c2 := c
+							c2.Epilog = epi
+							c2.Encoded = base64.StdEncoding.EncodeToString(append(append([]byte{}, xml...), epi...))
+							cases = append(cases, c2)
+							c3 := c
+							c3.Epilog = epi
+							c3.Encoded = h.Encode(append(append([]byte{}, xml...), epi...), h.Presentation{Deflate: true, Level: 6})
+							cases = append(cases, c3)
+						}
+					}
 				}
 			}
 		}
